@@ -28,6 +28,9 @@ func menu(w *chain.World) []chain.Action {
 		chain.V1Pay(true, 2), chain.V1SF(true), chain.V1Form(1, 2, 100), chain.V1Revise("pay"), chain.V1Proof(false),
 		chain.V2Pay(chain.AddrV2, true, 2), chain.V2Pay(chain.AddrACS, false, 1), chain.V2Chain(chain.AddrACS), chain.V2SF(true), chain.V2Form(1, 2, 100), chain.V2Form(0, 1, 10),
 		chain.V2Revise("pay"), chain.V2Renew("partial"), chain.V2Proof(), chain.V2Expire(), chain.V2Attest(),
+		// same-block interactions: the leaf written for an element touched twice in one block must carry its FINAL status
+		chain.Seq("v2revise+renew", chain.V2Revise("pay"), chain.V2Renew("none")), chain.Seq("v2revise-twice", chain.V2Revise("pay"), chain.V2Revise("risk")),
+		chain.Seq("v1revise+proof", chain.V1Revise("pay"), chain.V1Proof(false)), chain.Seq("v1form+revise", chain.V1Form(1, 2, 100), chain.V1Revise("pay")), chain.V1Chain(),
 	}
 }
 
@@ -42,7 +45,7 @@ func run(c *vf.Ctx) {
 			break
 		}
 		sp := chain.Spec(n)
-		m := &chain.Model{Name: "union-leafkey", Spec: sp, Menu: menu, Opt: opt, LeafKey: true,
+		m := &chain.Model{Name: "union-leafkey", Spec: sp, Menu: menu, Opt: opt, LeafKey: true, StaleResolve: true,
 			H: vf.Pick[uint64](c, 7, 9), D: vf.Pick(c, 2, 3), K: vf.Pick(c, 1, 2), R: vf.Pick(c, 1, 2)}
 		if sp.Name == "mixed" {
 			m.SkipStart = 3
